@@ -544,6 +544,14 @@ def gen_request_case(g, tier, focus=None, c17=None):
         nvia = g.pick([0, 1, 1, 2, 3, 6]) if mi > 0 or g.chance(0.8) else 1
         vias = via_stack(g, w, nvia, peer_ip)
         rrs_in = ["<sip:rr%d.example.org;lr>" % i + g.pick(["", ";x=y"]) for i in range(g.pick([0, 0, 0, 1, 2, 4]))]
+        if g.chance(0.08):
+            # a spiral: the request has been through this listener before - its top Via and / or its first Record-Route entry
+            # already name the listener. The proxy still pushes ONE new Via (fresh branch) and, by policy, one Record-Route.
+            if vias and g.chance(0.7):
+                vias[0] = Via(lst.proto, lst.addr, lst.port, [("branch", "z9hG4bK" + g.word(ALNUM.upper(), 5, 10))])
+            if rrs_in and g.chance(0.7):
+                rrs_in[0] = "<sip:%s:%d;lr>" % (lst.addr, lst.port)
+            g.count("req_spiral_own_via_or_rr")
         # ---- learning (the property's notion): sender address and every Via host of a request ----
         w.learn(peer_ip, lst)
         for v in vias:
